@@ -105,9 +105,11 @@ where
                     let b = body.lock().unwrap().take().expect("body runs once");
                     b();
                     stop.store(true, Ordering::SeqCst);
-                    rt::time::kick_timer();
                     steps2.store(rt::core::schedule_len() as u64, Ordering::SeqCst);
                     completed2.store(true, Ordering::SeqCst);
+                    // end the execution here: the scheduler answers the next decision with "stop"
+                    sched::STOP_REQUEST.store(true, Ordering::SeqCst);
+                    rt::core::yield_now();
                 });
             }));
             rt::core::set_exec_over(true);
@@ -116,7 +118,11 @@ where
                     if completed.load(Ordering::SeqCst) {
                         EndState::Completed
                     } else if sched::HANG.load(Ordering::SeqCst) {
-                        EndState::Hang("watchdog: only the clock could advance and no operation completed".into())
+                        if sched::DEADLOCK.load(Ordering::SeqCst) {
+                            EndState::Hang("deadlock: every thread is blocked and no timer is pending".into())
+                        } else {
+                            EndState::Hang("watchdog: only the clock could advance and no operation completed".into())
+                        }
                     } else {
                         EndState::Engine("execution stopped before the main thread returned".into())
                     }
